@@ -161,6 +161,12 @@ def gen_loss(draw, name):
         lab_pat = [draw(st.integers(0, c - 1)) for _ in range(min(n, 7))]
         args["labels"] = [lab_pat[(j * j + j) % len(lab_pat)] for j in range(n)]
         args["label_dtype"] = draw(st.sampled_from(["int64", "int32", "int8", "uint8", "int16"]))
+        if draw(st.integers(0, 5)) == 0:
+            # class indices counted from the end (-1 .. -c): not documented, but where the forward accepts them the
+            # backward must differentiate what the forward computed
+            args["labels"] = [l - c if (j % 2 == 0) else l for j, l in enumerate(args["labels"])]
+            args["label_dtype"] = "int64"
+            args["neg_labels"] = True
         v = draw(gen.grid([min(n, 7), c]))
         v = [v[((j % min(n, 7)) * c + q)] for j in range(n) for q in range(c)]
         if name == "ce" and draw(st.integers(0, 3)) == 0:
@@ -234,6 +240,12 @@ def _loss_nt(a, s):
 
 
 def _loss_tags(a, s):
+    if a.get("neg_labels"):
+        return _loss_tags_({k: v for k, v in a.items() if k != "neg_labels"}, s) + ["labels_counted_from_the_end"]
+    return _loss_tags_(a, s)
+
+
+def _loss_tags_(a, s):
     return [a["form"]] + (["reduction_" + a["reduction"]] if "reduction" in a else [])
 
 
@@ -662,7 +674,7 @@ def _act_op(name):
 
 def _loss_op(name):
     return TOp("loss_" + name, (lambda name=name: gen_loss(name)), _apply_loss(name), _ref_loss(name),
-               nt=_loss_nt, tags=_loss_tags)
+               nt=_loss_nt, tags=_loss_tags, documented=lambda a, s: not a.get("neg_labels"))
 
 
 OPS = [
